@@ -38,6 +38,9 @@ Definition user_in_range (c : tokcase) : bool :=
 Definition c08_oracle (c : tokcase) : bool :=
   (user_in_range c || negb (tc_built c =? 0)%N)
   && negb (tc_built c =? 2)%N
+  (* the same user lexicon loaded AFTER an id mapping of the dictionary (its ids are given in the original numbering)
+     is accepted or rejected exactly like on the unmapped dictionary -- an error, never a panic *)
+  && match tc_extra c with [[code]] => (code =? tc_built c)%N | _ => true end
   && with_dict c true (fun d o => forallb (fun so => sent_oracle_c08 d o so && sent_ok_c03 d o so) (tc_sents c)).
 
 (** a rejected user lexicon: ids outside the connector or no rows *)
